@@ -912,8 +912,10 @@ static int http_request_parse_reqline(request_st * const restrict r, const char 
         return http_request_header_line_invalid(r, 400, "no uri specified -> 400");
 
     /* check uri for invalid characters */     /* http_header_strict */
+    /* (CONNECT target is not normalized in http_request_parse_target()) */
     const char * const x = (http_parseopts & HTTP_PARSEOPT_HEADER_STRICT)
-      ? (http_parseopts & HTTP_PARSEOPT_URL_NORMALIZE_CTRLS_REJECT)
+      ? ((http_parseopts & HTTP_PARSEOPT_URL_NORMALIZE_CTRLS_REJECT)
+         && HTTP_METHOD_CONNECT != r->http_method)
           ? NULL /* URI will be checked in http_request_parse_target() */
           : http_request_check_uri_strict((const uint8_t *)uri, len)
       : memchr(ptr, '\0', hoff[hoff[0]]);/* check entire headers set for '\0' */
